@@ -502,48 +502,51 @@ func ruleP13Clauses(p *Prog, r *Report) {
 		}
 		okOrder := false
 		var setEntries ssa.CallInstruction
-		eachInstr(g, func(in ssa.Instruction) {
-			if c, ok := in.(ssa.CallInstruction); ok {
+		var setCtx vinstr
+		for _, vi := range virtualInstrs(g) {
+			if c, ok := vi.in.(ssa.CallInstruction); ok {
 				if n, _, _, _ := methodCallOf(c); n == "SetEntries" {
-					setEntries = c
+					setEntries, setCtx = c, vi
 				}
 			}
-		})
+		}
 		if setEntries != nil {
-			_, _, args, _ := methodCallOf(setEntries)
-			phis, inputs := phiCycle(args[0])
-			nApp := 0
-			okOrder = len(phis) > 0
-			for _, in := range inputs {
-				if isNilConst(in) {
-					continue
+			setCtx.run(func() {
+				_, _, args, _ := methodCallOf(setEntries)
+				phis, inputs := phiCycle(args[0])
+				nApp := 0
+				okOrder = len(phis) > 0
+				for _, in := range inputs {
+					if isNilConst(in) {
+						continue
+					}
+					c, ok := in.(*ssa.Call)
+					if !ok {
+						okOrder = false
+						continue
+					}
+					bi, ok := c.Call.Value.(*ssa.Builtin)
+					if !ok || bi.Name() != "append" {
+						okOrder = false
+						continue
+					}
+					nApp++
+					els, ok2 := sliceLitElems(c.Call.Args[1])
+					if !ok2 || len(els) != 1 {
+						okOrder = false
+						continue
+					}
+					coll := rangeElemOf(els[0])
+					if coll == nil {
+						okOrder = false
+						continue
+					}
+					if n, _, _, _ := methodCall(coll); n != "Entries" {
+						okOrder = false
+					}
 				}
-				c, ok := in.(*ssa.Call)
-				if !ok {
-					okOrder = false
-					continue
-				}
-				bi, ok := c.Call.Value.(*ssa.Builtin)
-				if !ok || bi.Name() != "append" {
-					okOrder = false
-					continue
-				}
-				nApp++
-				els, ok2 := sliceLitElems(c.Call.Args[1])
-				if !ok2 || len(els) != 1 {
-					okOrder = false
-					continue
-				}
-				coll := rangeElemOf(els[0])
-				if coll == nil {
-					okOrder = false
-					continue
-				}
-				if n, _, _, _ := methodCall(coll); n != "Entries" {
-					okOrder = false
-				}
-			}
-			okOrder = okOrder && nApp == 1
+				okOrder = okOrder && nApp == 1
+			})
 		}
 		r.check(okOrder, rule, name+":order", p.pos(g.Pos()), "matching entries are collected in their original order (append-only over r.Entries())", name+" does not collect the matching entries by appending the loop element in order")
 	}
